@@ -61,6 +61,7 @@ type VerifEtcd struct {
 	compact int64
 	paused  bool
 	getErrs int
+	tagErrs map[string]int
 	stale   int64
 	streams []*verifStream
 	ctx     context.Context
@@ -171,6 +172,11 @@ func (e *VerifEtcd) Get(_ context.Context, key string, opts ...clientv3.OpOption
 	tag := verifTag(key, end)
 	e.mu.Lock()
 	defer e.mu.Unlock()
+	if e.tagErrs[tag] > 0 {
+		e.tagErrs[tag]--
+		e.logf(VerifLogEntry{W: tag, T: "geterr"})
+		return nil, errors.New("verif: etcd unavailable")
+	}
 	if e.getErrs > 0 {
 		e.getErrs--
 		e.logf(VerifLogEntry{W: tag, T: "geterr"})
@@ -352,6 +358,16 @@ func (e *VerifEtcd) VGetErrs(n int) {
 	e.mu.Unlock()
 }
 
+// VGetErrsTag makes the next n Get calls of one watcher fail.
+func (e *VerifEtcd) VGetErrsTag(tag string, n int) {
+	e.mu.Lock()
+	if e.tagErrs == nil {
+		e.tagErrs = map[string]int{}
+	}
+	e.tagErrs[tag] = n
+	e.mu.Unlock()
+}
+
 // VStale makes the next Get answer with the store as it was `back` revisions ago.
 func (e *VerifEtcd) VStale(back int64) {
 	e.mu.Lock()
@@ -431,6 +447,15 @@ func (e *VerifEtcd) Quiesce(expect []string, timeout time.Duration) bool {
 		}
 		time.Sleep(500 * time.Microsecond)
 	}
+}
+
+// QuiesceLoose is Quiesce without the demand that every watch goroutine of the cluster is
+// parked (some may be loading).
+func (e *VerifEtcd) QuiesceLoose(expect []string, timeout time.Duration) bool {
+	p := e.cptr
+	e.cptr = ""
+	defer func() { e.cptr = p }()
+	return e.Quiesce(expect, timeout)
 }
 
 // busy: some watch goroutine of this fake's cluster is not (yet) back in watchStream's select:
